@@ -1,5 +1,9 @@
 package main
 
 func execExtraOp(ts []string) (string, bool) {
+	switch ts[0] {
+	case "regs":
+		return execRegs(ts), true
+	}
 	return "", false
 }
